@@ -1499,3 +1499,17 @@ V(id='c24-stirling-threshold-before-bump', prop='C24', file='mpmath/libmp/gammaz
 V(id='c24-benign-threshold-more-conservative', prop='C24', file='mpmath/libmp/libhyper.py',
   old="            can_use_asymp = xabsint > int(wp*0.693) + 10", new="            can_use_asymp = xabsint > int(wp*0.693) + 12",
   expect='silent')
+
+# ------------------------------------------------ C17 K-R4 -------
+V(id='c17-e-terms-stirling-slip', prop='C17', file='mpmath/libmp/libelefun.py',
+  old="    N = int(1.1*prec/math.log(prec) + 20)", new="    N = int(prec/math.log(prec/math.e, 2) + 20)",
+  expect='fire:K-R4:e_fixed')
+V(id='c17-pi-digits-per-term-15', prop='C17', file='mpmath/libmp/libelefun.py',
+  old="    N = int(prec/3.3219280948/14.181647462 + 2)", new="    N = int(prec/3.3219280948/15.181647462 + 2)",
+  expect='fire:K-R4:pi_fixed')
+V(id='c17-acot-terms-short', prop='C17', file='mpmath/libmp/libelefun.py',
+  old="    N = int(0.35 * prec/math.log(a) + 20)", new="    N = int(0.3 * prec/math.log(a) + 20)",
+  expect='fire:K-R4:acot_fixed')
+V(id='c17-benign-more-terms', prop='C17', file='mpmath/libmp/libelefun.py',
+  old="    N = int(1.1*prec/math.log(prec) + 20)", new="    N = int(1.2*prec/math.log(prec) + 25)",
+  expect='silent')
